@@ -446,6 +446,25 @@ def Sys.ckptSteps (crc : Bytes → Nat) (enc : Entry → Bytes) (sy : Sys) (id :
 def Sys.checkpoint (crc : Bytes → Nat) (enc : Entry → Bytes) (sy : Sys) (id : Nat) : Sys :=
   (((sy.ckptSync).ckptSnapshot).ckptMarker crc enc id).ckptTruncate
 
+/-- two threads under the log mutex as `checkpoint` holds it since repo a74fb575 (from its fsync to
+    the truncation; `put_durable` / `delete_durable` take it before they log and apply): in every
+    schedule of a writer's operations and one checkpoint, the four steps of the checkpoint run as
+    ONE block between two operations.  `i` = how many operations the writer got in first. -/
+def Sys.withCheckpointAt (crc : Bytes → Nat) (enc : Entry → Bytes) (sy : Sys) (ops : List Op) (i id : Nat) : Sys :=
+  (ops.drop i).foldl (Sys.op crc enc) (Sys.checkpoint crc enc ((ops.take i).foldl (Sys.op crc enc) sy) id)
+
+/-- the schedules that were possible BEFORE repo a74fb575 (the mutex was released between the
+    fsync, the snapshot and the marker + truncate steps): `j` further operations of the writer run
+    after the snapshot was taken and before the log is truncated.  Only used by `…_witness`
+    theorems. -/
+def Sys.withCheckpointAtOld (crc : Bytes → Nat) (enc : Entry → Bytes) (sy : Sys) (ops : List Op)
+    (i j id : Nat) : Sys :=
+  let s1 := (ops.take i).foldl (Sys.op crc enc) sy
+  let s2 := s1.ckptSync.ckptSnapshot
+  let s3 := ((ops.drop i).take j).foldl (Sys.op crc enc) s2
+  let s4 := (s3.ckptMarker crc enc id).ckptTruncate
+  ((ops.drop i).drop j).foldl (Sys.op crc enc) s4
+
 /-- the three steps of `checkpoint` BEFORE repo 197dc525 (no fsync first).  Only used by
     `…_witness` theorems. -/
 def Sys.ckptStepsOld (crc : Bytes → Nat) (enc : Entry → Bytes) (sy : Sys) (id : Nat) : List Sys :=
@@ -524,10 +543,26 @@ def Wal.appendLim (mode : SyncMode) (maxSize : Nat) (w : Wal) (recBytes : Bytes)
   if w.file.length + recBytes.length > maxSize then none else some (Wal.append mode w recBytes)
 
 /-- memory after a `put_durable` / `delete_durable` that returned an error because one of its
-    appends was refused (`?` before the in-memory apply): nothing is applied — except that
+    appends was refused (the error is returned before the in-memory apply): nothing is applied.
     `put_durable` calls `index.get_or_create(key)` BEFORE it logs the `EmbeddingSet` record of an
-    `emb:` key whose value carries a vector, and does not undo it: the entity-index entry stays. -/
+    `emb:` key whose value carries a vector (the record carries the id); since repo f5ce42e5 an
+    id allocated there for a key that was NOT in the index (`created_entry`) is released again
+    with `index.remove(key)` on both error paths.  What stays behind is a tombstoned vocabulary
+    slot: the id is consumed (later keys get higher ids), no key is indexed that was not before. -/
 def failMem (s : Store) : Op → Store
+  | .put k v =>
+      if isCacheKey k then s
+      else if classify k = .embedding ∧ v.emb.isSome then
+        match idxGet s.vocab k with
+        | none => { s with vocab := idxRemove (idxGetOrCreate s.vocab k).2 k }
+        | some _ => s
+      else s
+  | .delete _ => s
+
+/-- `failMem` BEFORE repo f5ce42e5 (class
+    `tensor_store.slab_router.put_durable/failed_put_leaves_entity_index_entry`): the entity-index
+    entry allocated before logging was not undone.  Only used by `…_witness` theorems. -/
+def failMemOld (s : Store) : Op → Store
   | .put k v =>
       if isCacheKey k then s
       else if classify k = .embedding ∧ v.emb.isSome then { s with vocab := (idxGetOrCreate s.vocab k).2 }
@@ -550,6 +585,21 @@ def runOpsF (s : Store) : List (Op × Option Nat) → List Entry × Store × Lis
   | (o, t) :: r =>
       let a := stepF s o t
       let b := runOpsF a.2.1 r
+      (a.1 ++ b.1, b.2.1, if a.2.2 then o :: b.2.2 else b.2.2)
+
+/-- `stepF` / `runOpsF` BEFORE repo f5ce42e5 (`failMemOld`).  Only used by `…_witness` theorems. -/
+def stepFOld (s : Store) (o : Op) (t : Option Nat) : List Entry × Store × Bool :=
+  match t with
+  | none => ((step s o).1, (step s o).2, true)
+  | some t =>
+      if t < (step s o).1.length then ((step s o).1.take t, failMemOld s o, false)
+      else ((step s o).1, (step s o).2, true)
+
+def runOpsFOld (s : Store) : List (Op × Option Nat) → List Entry × Store × List Op
+  | [] => ([], s, [])
+  | (o, t) :: r =>
+      let a := stepFOld s o t
+      let b := runOpsFOld a.2.1 r
       (a.1 ++ b.1, b.2.1, if a.2.2 then o :: b.2.2 else b.2.2)
 
 /-- append the records of one operation until one is refused: the log, and how many were appended -/
